@@ -153,56 +153,67 @@ Fixpoint build (it : item) : result coll :=
   end.
 
 (** * Lookup: [task_with_config], [__getitem__], [__contains__], [configuration] *)
+(** [_task_with_merged_config]: recursive merge, ours on top. *)
+Definition merged_with (ours : dict) (r : result (taskinfo * dict)) : result (taskinfo * dict) :=
+  match r with
+  | Err e => Err e
+  | Ok (t, inner) =>
+      match merge_dicts inner (Node ours) with
+      | Ok m => Ok (t, m)
+      | Err e => Err e
+      end
+  end.
+
+(** One level of [task_with_config]; [sub k rest] stands for
+    [self.collections[k].task_with_config(rest)]. *)
+Definition twc_nonempty (sub : string -> string -> result (taskinfo * dict))
+           (tasks : list (string * taskinfo)) (aliases : list (string * string))
+           (has_sub : string -> bool) (ad : bool) (ours : dict) (nm : string)
+  : result (taskinfo * dict) :=
+  let nm' := transform ad nm in
+  if contains_char "." nm' then
+    let '(k, _, rest) := partition_char "." nm' in
+    merged_with ours (sub k rest)
+  else if has_sub nm' then merged_with ours (sub nm' "")
+  else match lex_get tasks aliases nm' with
+       | Ok t => Ok (t, ours)
+       | Err e => Err e
+       end.
+
+Definition twc_step (sub : string -> string -> result (taskinfo * dict))
+           (tasks : list (string * taskinfo)) (aliases : list (string * string))
+           (has_sub : string -> bool) (dflt : option string) (ad : bool) (cfg : dict)
+           (name : string) : result (taskinfo * dict) :=
+  match copy_dict (Node cfg) with
+  | Err e => Err e
+  | Ok ours =>
+      if String.eqb name "" then
+        match dflt with
+        | Some d =>
+            if String.eqb d "" then Err EValue else
+            (* [return self[self.default], ours]: whatever configuration the
+               default's own lookup accumulated is dropped *)
+            match twc_nonempty sub tasks aliases has_sub ad ours d with
+            | Ok (t, _) => Ok (t, ours)
+            | Err e => Err e
+            end
+        | None => Err EValue
+        end
+      else twc_nonempty sub tasks aliases has_sub ad ours name
+  end.
+
 Fixpoint task_with_config (c : coll) (name : string) {struct c}
   : result (taskinfo * dict) :=
   match c with
   | Coll _ tasks aliases subs dflt ad cfg =>
-      (* [self.collections[k].task_with_config(rest)] *)
-      let sub_twc :=
-        fix go (l : list (string * coll)) (k rest : string) {struct l}
-          : result (taskinfo * dict) :=
-          match l with
-          | [] => Err EKey
-          | (k', sc) :: l' => if String.eqb k k' then task_with_config sc rest else go l' k rest
-          end in
-      match copy_dict (Node cfg) with
-      | Err e => Err e
-      | Ok ours =>
-          (* [_task_with_merged_config]: recursive merge, ours on top *)
-          let merged (r : result (taskinfo * dict)) : result (taskinfo * dict) :=
-            match r with
-            | Err e => Err e
-            | Ok (t, inner) =>
-                match merge_dicts inner (Node ours) with
-                | Ok m => Ok (t, m)
-                | Err e => Err e
-                end
-            end in
-          let nonempty (nm : string) : result (taskinfo * dict) :=
-            let nm' := transform ad nm in
-            if contains_char "." nm' then
-              let '(k, _, rest) := partition_char "." nm' in
-              merged (sub_twc subs k rest)
-            else if has_key nm' subs then merged (sub_twc subs nm' "")
-            else match lex_get tasks aliases nm' with
-                 | Ok t => Ok (t, ours)
-                 | Err e => Err e
-                 end in
-          if String.eqb name "" then
-            if truthy dflt then
-              match dflt with
-              | Some d =>
-                  (* [return self[self.default], ours]: whatever configuration
-                     the default's own lookup accumulated is dropped *)
-                  match nonempty d with
-                  | Ok (t, _) => Ok (t, ours)
-                  | Err e => Err e
-                  end
-              | None => Err EValue
-              end
-            else Err EValue
-          else nonempty name
-      end
+      twc_step
+        (fun k rest =>
+           (fix go (l : list (string * coll)) {struct l} : result (taskinfo * dict) :=
+              match l with
+              | [] => Err EKey
+              | (k', sc) :: l' => if String.eqb k k' then task_with_config sc rest else go l'
+              end) subs)
+        tasks aliases (fun k => has_key k subs) dflt ad cfg name
   end.
 
 Definition getitem (c : coll) (name : string) : result taskinfo :=
